@@ -353,12 +353,12 @@ func ruleGate(c *Ctx, rule string) {
 		return ok, n
 	}
 	if ok, n := onlyFalse(func(a *Atom) (bool, bool) {
-		if strings.HasPrefix(a.Key, "cmp:method==") {
-			return a.S == "GET" && false, true // method is not GET: every `method == X` with X=="GET" is false; others unknown
+		if strings.HasPrefix(a.Key, "cmp:method==") && a.S == "GET" {
+			return false, true // method is not GET; a comparison with any other token (or the empty method) stays open
 		}
 		return false, false
 	}); !ok || n == 0 {
-		c.Fail(rule, "gate-method", "the gate is false for every method other than GET", c.P.ShortName(gate)+": can return true when method != GET (or compares with another method)")
+		c.Fail(rule, "gate-method", "the gate is false for every method other than GET", c.P.ShortName(gate)+": can return true when method != GET (it compares with another method token, or with the empty method, which the 304 branch of the validation handler does not treat as GET: the origin's 304 is then stored and replayed to unconditional requests)")
 	} else {
 		c.Pass(rule, "gate-method", "the gate is false for every method other than GET", c.P.ShortName(gate))
 	}
